@@ -4,7 +4,11 @@ import glob, json, os
 ROOT = os.path.dirname(os.path.dirname(os.path.abspath(__file__)))
 allids = [json.loads(l)["id"] for l in open(os.path.join(ROOT, "properties.jsonl"))]
 checks, claimed = [], set()
+import subprocess
+tracked = set(subprocess.run(["git", "-C", ROOT, "ls-files", "props"], capture_output=True, text=True).stdout.split())
 for p in sorted(glob.glob(os.path.join(ROOT, "props", "C*.json"))):
+    if os.path.relpath(p, ROOT) not in tracked:
+        continue
     c = json.load(open(p))
     if c.get("disabled"):
         continue
